@@ -43,7 +43,7 @@ RULE = (
 ASSUMPTIONS = [
     "value alphabets: rewards/values from a 3-element set containing 0 (rotated by VERIF_SEED), gamma/lambda from {0, 0.5, 1} and (0.99, 0.95); no inf/nan",
     "sequence lengths <= 4 (quick) / 5 (thorough); n_envs, rollout length, batch size, horizon <= 3",
-    "truncation is outside the alphabet: only terminated / not-terminated steps are scripted (the property text speaks of termination only)",
+    "truncation flags are varied only for prepare_a2c_batch (they are irrelevant data there: estimates must not change); PPO receives no truncation flags",
     "networks are tiny (1 hidden layer x 3 units) and receive a zero learning rate where a routine insists on updating them; their forward passes are taken as given (reference uses the same forward values)",
     "PPO is observed end to end through train_ppo(iterations=1) on a SyncVectorEnv(SAME_STEP) of scripted environments; the arrays handed to ppo_loss (observations, advantages, returns) are captured by wrapping the module-level name; gamma=0.99, lambda=0.95 are compute_gae's documented defaults, which update_ppo does not override",
     "mrq_loss and model_based_encoder_loss are evaluated under nnx.jit (the way MR.Q calls them); discounted_n_step_return both eagerly and under jit; comparisons are exact only between runs of the same compiled program",
@@ -693,29 +693,44 @@ class A2c(EnvBatch):
         from rl_blox.blox.replay_buffer import ReplayBuffer
 
         N, T = len(ctx), len(ctx[0][0])
-        rb = ReplayBuffer(T, keys=["obs", "actions", "rewards", "terminations", "truncations"], dtypes=[float, float, float, int, int])
-        for t in range(T):
-            rb.add_sample(
-                obs=np.array([[self.x(e, t, ctx[e][0][t][0]), t, e] for e in range(N)], dtype=np.float32),
-                actions=np.zeros((N, 1), dtype=np.float32),
-                rewards=np.array([self.reward(e, t, ctx[e][0][t][0]) for e in range(N)]),
-                terminations=np.array([bool(ctx[e][0][t][1]) for e in range(N)]),
-                truncations=np.zeros(N, dtype=bool),
-            )
         last = np.array([[self.x(e, T, ctx[e][1]), T, e] for e in range(N)], dtype=np.float32)
-        try:
-            fo, fa, adv, ret = a2c.prepare_a2c_batch(rb, self.vf, jnp.asarray(last), gym.spaces.Box(-1.0, 1.0, (1,)), self.gamma, self.lmbda)
-        except Exception as e:  # noqa: BLE001
-            raise Rejected(f"{type(e).__name__}: {e}") from e
-        fo, adv, ret = np.asarray(fo), np.asarray(adv), np.asarray(ret)
-        if adv.shape != (N * T,) or ret.shape != (N * T,) or fo.shape != (N * T, 3):
-            self.col.violation(SIG.format(self.entry, K_SHAPE), dict(context=self.describe(ctx), shapes=[fo.shape, adv.shape, ret.shape]))
-            return None
-        out = {(int(fo[j, 2]), int(fo[j, 1])): (float(adv[j]), float(ret[j])) for j in range(N * T)}
-        if len(out) != N * T:
-            self.col.violation(SIG.format(self.entry, K_SHAPE), dict(context=self.describe(ctx), rows=fo.tolist()))
-            return None
-        return out
+        outs = {}
+        # truncation flags are not part of the (reward, value, termination) data the estimates are defined
+        # on: the batch is prepared with no truncation, with every non-terminated step truncated and with
+        # the last step truncated, and all three must give the same estimates
+        for mode in ("none", "all", "last"):
+            rb = ReplayBuffer(T, keys=["obs", "actions", "rewards", "terminations", "truncations"], dtypes=[float, float, float, int, int])
+            for t in range(T):
+                term = np.array([bool(ctx[e][0][t][1]) for e in range(N)])
+                trunc = np.zeros(N, dtype=bool) if mode == "none" else (~term if (mode == "all" or t == T - 1) else np.zeros(N, dtype=bool))
+                rb.add_sample(
+                    obs=np.array([[self.x(e, t, ctx[e][0][t][0]), t, e] for e in range(N)], dtype=np.float32),
+                    actions=np.zeros((N, 1), dtype=np.float32),
+                    rewards=np.array([self.reward(e, t, ctx[e][0][t][0]) for e in range(N)]),
+                    terminations=term,
+                    truncations=trunc,
+                )
+            try:
+                fo, fa, adv, ret = a2c.prepare_a2c_batch(rb, self.vf, jnp.asarray(last), gym.spaces.Box(-1.0, 1.0, (1,)), self.gamma, self.lmbda)
+            except Exception as e:  # noqa: BLE001
+                raise Rejected(f"{type(e).__name__}: {e}") from e
+            fo, adv, ret = np.asarray(fo), np.asarray(adv), np.asarray(ret)
+            if adv.shape != (N * T,) or ret.shape != (N * T,) or fo.shape != (N * T, 3):
+                self.col.violation(SIG.format(self.entry, K_SHAPE), dict(context=self.describe(ctx), shapes=[fo.shape, adv.shape, ret.shape]))
+                return None
+            out = {(int(fo[j, 2]), int(fo[j, 1])): (float(adv[j]), float(ret[j])) for j in range(N * T)}
+            if len(out) != N * T:
+                self.col.violation(SIG.format(self.entry, K_SHAPE), dict(context=self.describe(ctx), rows=fo.tolist()))
+                return None
+            outs[mode] = out
+        for mode in ("all", "last"):
+            self.col.tick(1)
+            if any(not same(outs[mode][k], outs["none"][k]) for k in outs["none"]):
+                self.col.violation(SIG.format(self.entry, "depends-on-truncation-flags"), dict(context=self.describe(ctx), truncated=mode, without=outs["none"], with_truncation=outs[mode]))
+                break
+        else:
+            self.col.outcome("a2c_contexts_invariant_under_truncation_flags")
+        return outs["none"]
 
 
 _PPO = {}
